@@ -1,13 +1,13 @@
 (* Model/Asm.v — transcription of the ASM text functions of src/script/mod.rs:
    script_bits_to_asm_string (plain and extended), map_string_to_script_bit, from_asm_string,
-   together with the std / crate functions they call (str::split(' '), str::trim on ASCII,
+   together with the std / crate functions they call (str::split_whitespace and str::trim on ASCII,
    strum EnumString / Debug names via the generated table, hex::encode / hex::decode,
    VarInt::get_pushdata_opcode).  Definitions only.
 
    Text is `string`, one `ascii` per UTF-8 byte.  The transcription of `trim` is exact for ASCII
    text; for text with bytes >= 0x80 it is exact as long as the text contains none of the non-ASCII
    Unicode White_Space characters (U+0085, U+00A0, U+1680, U+2000..U+200A, U+2028, U+2029, U+202F,
-   U+205F, U+3000), because `split(' ')` and `hex::decode` work on bytes and every byte >= 0x80 is
+   U+205F, U+3000), because the remaining steps work on bytes and every byte >= 0x80 is
    rejected by `hex::decode` and occurs in no opcode name. *)
 From BSV Require Import Base.Hex Model.Opcodes Model.Script.
 
@@ -35,17 +35,20 @@ Fixpoint rtrim (s : string) : string :=
   end.
 Definition trim (s : string) : string := rtrim (ltrim s).
 
-(* str::split(' '): always at least one piece; linear (Base.Hex.split is quadratic) *)
-Fixpoint split_sp (s : string) : list string :=
+(* str::split_whitespace(): the pieces between whitespace characters, empty pieces dropped.
+   `ws_split` cuts at every whitespace character (always at least one piece; linear). *)
+Fixpoint ws_split (s : string) : list string :=
   match s with
   | EmptyString => [EmptyString]
   | String c r =>
-      if Ascii.eqb c " " then EmptyString :: split_sp r
-      else match split_sp r with
+      if is_ws c then EmptyString :: ws_split r
+      else match ws_split r with
            | h :: t => String c h :: t
            | [] => [String c EmptyString]
            end
   end.
+Definition split_whitespace (s : string) : list string :=
+  filter (fun x => negb (is_empty x)) (ws_split s).
 
 (* ------------------------------------------------------------------ *)
 (* map_string_to_script_bit *)
@@ -82,9 +85,8 @@ Fixpoint map_tokens (l : list string) : outcome (list bit) :=
   | t :: r => do b <- map_token t; do bs <- map_tokens r; Ok (b :: bs)
   end.
 
-(* asm.split(' ').filter(|x| !x.trim().is_empty()) *)
-Definition keep_token (x : string) : bool := negb (is_empty (trim x)).
-Definition asm_tokens (s : string) : list string := filter keep_token (split_sp s).
+(* asm.split_whitespace().map(Script::map_string_to_script_bit).collect() *)
+Definition asm_tokens (s : string) : list string := split_whitespace s.
 
 Definition from_asm (s : string) : outcome (list bit) :=
   do bits <- map_tokens (asm_tokens s); nest_top bits.
